@@ -338,4 +338,48 @@ def sheetFormulas : Table → List CellIn → Res (List ((Nat × Nat) × List Ch
     | .panic e => .panic e
     | .outOfFuel => .outOfFuel
 
+/-- an `<f>` element with its raw attributes: `si` already parsed as a number (`none`: missing or
+    not a number), `ref` as the attribute text -/
+structure CellRaw where
+  pos : Nat × Nat
+  f : Option (List Char × Option (Option Nat × Option (List Char)))
+  deriving Repr, DecidableEq
+
+/-- attribute handling of `next_formula` in source order: `si` first (`Err` when absent), then
+    `get_dimension(ref)?` -/
+def CellRaw.parse (c : CellRaw) : Res CellIn :=
+  match c.f with
+  | none => .ok ⟨c.pos, none⟩
+  | some (text, none) => .ok ⟨c.pos, some (text, none)⟩
+  | some (text, some (si, ref)) =>
+    match si with
+    | none => .err "si attribute"
+    | some si =>
+      match ref with
+      | none => .ok ⟨c.pos, some (text, some ⟨some si, none⟩)⟩
+      | some r =>
+        match getDimension r with
+        | .ok d => .ok ⟨c.pos, some (text, some ⟨some si, some d⟩)⟩
+        | .err e => .err e
+        | .panic e => .panic e
+        | .outOfFuel => .outOfFuel
+
+/-- `worksheet_formula` over raw cells -/
+def sheetFormulasRaw : Table → List CellRaw → Res (List ((Nat × Nat) × List Char))
+  | _, [] => .ok []
+  | t, c :: cs =>
+    match c.parse with
+    | .ok ci =>
+      match cellFormula t ci with
+      | .ok (t', v) =>
+        match sheetFormulasRaw t' cs with
+        | .ok rest => .ok (if v = [] then rest else (c.pos, v) :: rest)
+        | r => r
+      | .err e => .err e
+      | .panic e => .panic e
+      | .outOfFuel => .outOfFuel
+    | .err e => .err e
+    | .panic e => .panic e
+    | .outOfFuel => .outOfFuel
+
 end SharedFormula
